@@ -109,6 +109,17 @@ func syncCases(r *mon.Rand, foreign []util.Node) []syncCase {
 			sc.Nodes = append(sc.Nodes, sc.Nodes[r.Intn(len(sc.Nodes))])
 			return true
 		}})
+		cs = append(cs, syncCase{"drop-node-pad-with-repeat", true, func(sc *block.StateChange, tb *block.Block) bool {
+			// one changed node dropped, another one listed twice: the LIST is as long as the declared count, the number of
+			// nodes it delivers is one short
+			if len(sc.Nodes) < 2 {
+				return false
+			}
+			i := r.Intn(len(sc.Nodes))
+			nodes := append(append([]util.Node{}, sc.Nodes[:i]...), sc.Nodes[i+1:]...)
+			sc.Nodes = append(nodes, nodes[r.Intn(len(nodes))])
+			return true
+		}})
 		cs = append(cs, syncCase{"altered-node", true, func(sc *block.StateChange, tb *block.Block) bool {
 			if len(sc.Nodes) == 0 {
 				return false
@@ -271,6 +282,10 @@ func syncChild(prop, tier string, idx, nh, nl int) int {
 				}
 				run.Distinct(fmt.Sprintf("%s|%s|n%d", c.name, verdict, bucket(len(orig.Nodes))))
 				run.Count("case_"+c.name+"_"+verdict, 1)
+				if err == nil && c.mustReject {
+					run.Violate("tampered-change-set-accepted:"+c.name, fmt.Sprintf("case %s (changes root/block/count) was accepted", c.name), map[string]interface{}{"history": h.ID, "round": b.Round, "nodes": len(orig.Nodes)})
+					continue
+				}
 				if err == nil {
 					// accepted: must be exactly the executed state
 					if tb.ClientState == nil || !bytes.Equal(tb.ClientState.GetRoot(), b.ClientStateHash) {
@@ -292,9 +307,6 @@ func syncChild(prop, tier string, idx, nh, nl int) int {
 					}
 					if d := snap.Diff(want, got); !d.Empty() {
 						run.Violate("accepted-change-set-differs-from-execution:"+c.name, fmt.Sprintf("case %s: synced state differs from executed state in %d leaves", c.name, len(d.All())), map[string]interface{}{"history": h.ID, "round": b.Round})
-					}
-					if c.mustReject {
-						run.Violate("tampered-change-set-accepted:"+c.name, fmt.Sprintf("case %s (changes root/block/count) was accepted", c.name), map[string]interface{}{"history": h.ID, "round": b.Round, "nodes": len(orig.Nodes)})
 					}
 					if c.name == "untampered" {
 						run.Count("applied_untampered", 1)
